@@ -44,7 +44,9 @@ impl Dependencies for ClassFeature {
 
     fn supplies(&self) -> Vec<crate::ast::Dependency> {
         match self {
-            Self::Function(x) => x.supplies(),
+            // a method's parameters are local to the method (`dependencies` above is already net of
+            // them): they do not satisfy a name used by another member of the class
+            Self::Function(_) => vec![],
             Self::Variable(x) => x.supplies(),
         }
     }
